@@ -73,6 +73,14 @@ def lib(fn, *args, **kwargs):
         raise Fail("exc:%s@%s" % (type(e).__name__, site), "%s raised %s: %s" % (name, type(e).__name__, str(e)[:200]))
 
 
+def lib_verbose(fn, *args, **kwargs):
+    """lib() with verbose=True (a documented keyword argument of the grammar functions); what the function prints is discarded."""
+    import contextlib
+    import io
+    with contextlib.redirect_stdout(io.StringIO()):
+        return lib(fn, *args, verbose=True, **kwargs)
+
+
 def _alarm(signum, frame):
     # never raise while a garbage-collection callback of Hypothesis is on the stack (the exception would surface in its internals): try again shortly
     f = frame
